@@ -9,8 +9,10 @@
 (*   regular file (with a content id) or a symbolic link with a relative   *)
 (*   or absolute target (the generator uses five candidate paths and a     *)
 (*   list of targets, the judge accepts any tree: random larger ones too); *)
-(*   optionally a read-only collection mount (outside: /mnt, or beneath    *)
-(*   the output path: /out/m) showing the subtree sc.mpath ("" or one      *)
+(*   optionally a read-only collection mount at sc.mroot (outside: /mnt;    *)
+(*   beneath the output path: /out/m; or beneath a subdirectory of it:     *)
+(*   /out/a/m, so that a link to /out/a must bring the mounted content     *)
+(*   along) showing the subtree sc.mpath ("" or one      *)
 (*   directory: arvados.Mount.Path) of the collection whose manifest is    *)
 (*   sc.mount (one of MountFamily: among them directories whose names are  *)
 (*   prefixes of one another), and a secret mount at sc.sec (outside:      *)
@@ -85,13 +87,15 @@ MountFamily ==
           [name |-> <<DOT, SL>> \o D1 \o <<SL>> \o E, blocks |-> <<202, 103>>,
            toks |-> << [pos |-> 1, len |-> 3, name |-> J] >>] >> >>
 (* mount configurations [mode, fam, mpath] and secret roots to choose from *)
-MountCfgs == << [mode |-> "none",    fam |-> 1, mpath |-> <<>>],       \* 1
-                [mode |-> "outside", fam |-> 1, mpath |-> <<>>],       \* 2
-                [mode |-> "beneath", fam |-> 1, mpath |-> <<>>],       \* 3
-                [mode |-> "outside", fam |-> 2, mpath |-> <<>>],       \* 4
-                [mode |-> "outside", fam |-> 2, mpath |-> <<D>>],      \* 5  /mnt shows ./d only
-                [mode |-> "beneath", fam |-> 2, mpath |-> <<D>>],      \* 6  /out/m shows ./d only
-                [mode |-> "beneath", fam |-> 2, mpath |-> <<>>] >>     \* 7
+MountCfgs == << [mroot |-> <<>>,          fam |-> 1, mpath |-> <<>>],       \* 1  no collection mount
+                [mroot |-> <<MNT>>,       fam |-> 1, mpath |-> <<>>],       \* 2  outside the output path
+                [mroot |-> <<OUT, M>>,    fam |-> 1, mpath |-> <<>>],       \* 3  directly beneath it
+                [mroot |-> <<MNT>>,       fam |-> 2, mpath |-> <<>>],       \* 4
+                [mroot |-> <<MNT>>,       fam |-> 2, mpath |-> <<D>>],      \* 5  /mnt shows ./d only
+                [mroot |-> <<OUT, M>>,    fam |-> 2, mpath |-> <<D>>],      \* 6  /out/m shows ./d only
+                [mroot |-> <<OUT, M>>,    fam |-> 2, mpath |-> <<>>],       \* 7
+                [mroot |-> <<OUT, A, M>>, fam |-> 1, mpath |-> <<>>],       \* 8  beneath the subdirectory /out/a: reached
+                [mroot |-> <<OUT, A, M>>, fam |-> 2, mpath |-> <<D>>] >>    \* 9  again through every link to /out/a
 SecretRoots == << <<>>, <<SECRET>>, <<OUT, S>>, <<OUT, A, S>> >>        \* none, outside, beneath, deeper (below /out/a)
 
 (* candidate paths below /out, and the content id of the file at each      *)
@@ -119,32 +123,34 @@ Targets == << [abs |-> FALSE, comps |-> <<X>>],              \* 1  sibling x (se
               [abs |-> TRUE,  comps |-> <<MNT, D1>>],        \* 17 the directory whose name extends d's
               [abs |-> TRUE,  comps |-> <<OUT, M>>],         \* 18 the mount point beneath
               [abs |-> TRUE,  comps |-> <<OUT, A, S>>],      \* 19 the deeper secret itself
-              [abs |-> TRUE,  comps |-> <<MNT, H>>] >>       \* 20 a file of ./d when only ./d is mounted
+              [abs |-> TRUE,  comps |-> <<MNT, H>>],         \* 20 a file of ./d when only ./d is mounted
+              [abs |-> TRUE,  comps |-> <<OUT, A, M>>] >>    \* 21 the mount point beneath /out/a
 
 CONSTANTS TargetIds,      \* subset of DOMAIN Targets used by this configuration
           MountCfgIds,    \* subset of DOMAIN MountCfgs
           SecretIds       \* subset of DOMAIN SecretRoots
 
-VARIABLE sc               \* [tree : paths -> node, mnt, mpath, mount, sec, done];  node = [k, c, abs, tg]
+VARIABLE sc               \* [tree : paths -> node, mroot, mpath, mount, sec, done];  node = [k, c, abs, tg]
 vars == <<sc>>                \*   k kind, c content id of a file, abs/tg target of a link (tg: components, UP = "..")
 
 SecretBelowOut == sc.sec # <<>> /\ Head(sc.sec) = OUT /\ Len(sc.sec) > 1
+MountBelowOut == sc.mroot # <<>> /\ Head(sc.mroot) = OUT /\ Len(sc.mroot) > 1
 ParentIsDir(p) == LET q == SubSeq(p, 1, Len(p) - 1) IN q \in DOMAIN sc.tree /\ sc.tree[q].k = "dir"
 Mk(k, c, abs, tg) == [k |-> k, c |-> c, abs |-> abs, tg |-> tg]
 None    == Mk("none", 0, FALSE, <<>>)
 DirNode == Mk("dir", 0, FALSE, <<>>)
 Node(p) == IF p = <<>> THEN DirNode                                                \* the output directory itself
            ELSE IF p \in DOMAIN sc.tree THEN sc.tree[p]
-           ELSE IF p = <<M>> /\ sc.mnt = "beneath" THEN DirNode                    \* mount point
+           ELSE IF MountBelowOut /\ p = Tail(sc.mroot) /\ (Len(p) = 1 \/ ParentIsDir(p)) THEN DirNode   \* mount point
            ELSE IF SecretBelowOut /\ p = Tail(sc.sec) /\ (Len(p) = 1 \/ ParentIsDir(p))
                 THEN Mk("file", 0, FALSE, <<>>)                                    \* bind-mounted secret file
            ELSE None
-AllHost == DOMAIN sc.tree \cup {<<M>>} \cup (IF SecretBelowOut THEN {Tail(sc.sec)} ELSE {})
+AllHost == DOMAIN sc.tree \cup (IF MountBelowOut THEN {Tail(sc.mroot)} ELSE {}) \cup (IF SecretBelowOut THEN {Tail(sc.sec)} ELSE {})
 LinkTarget(n) == [abs |-> n.abs, comps |-> n.tg]
 Parent(p) == SubSeq(p, 1, Len(p) - 1)
 Children(p) == {q \in AllHost : Len(q) = Len(p) + 1 /\ Parent(q) = p /\ Node(q).k # "none"}
 
-MountRoot  == IF sc.mnt = "outside" THEN <<MNT>> ELSE IF sc.mnt = "beneath" THEN <<OUT, M>> ELSE <<>>
+MountRoot  == sc.mroot
 SecretRoot == sc.sec
 MountManifest == sc.mount
 MountPath == sc.mpath                                   \* arvados.Mount.Path: the subtree of the collection that is mounted
@@ -215,8 +221,9 @@ Den(dest, p, seen) ==
          [] n.k = "file" -> OK({[dst |-> CollPath(dest), kind |-> "hfile", src |-> CollPath(p)]})
          [] n.k = "dir"  ->
               LET kids == {q \in Children(p) : Where(<<OUT>> \o q).w = "out"}       \* not mount points, not secrets
-                  below == IF sc.mnt = "beneath" /\ p = <<>>                          \* the collection mounted beneath
-                           THEN {OK(MountEntries(dest \o <<M>>, MountPath))} ELSE {}
+                  mp == Tail(sc.mroot)                                                \* the collection mounted in this directory
+                  below == IF MountBelowOut /\ Parent(mp) = p
+                           THEN {OK(MountEntries(dest \o <<mp[Len(mp)]>>, MountPath))} ELSE {}
               IN Merge({OK(IF dest = <<>> THEN {} ELSE
                               {[dst |-> CollPath(dest), kind |-> IF Children(p) = {} THEN "emptydir" ELSE "dir", src |-> CollPath(p)]})}
                        \cup {Den(dest \o <<q[Len(q)]>>, q, seen) : q \in kids} \cup below)
@@ -236,7 +243,7 @@ LimitFollowSymlinks == 10
 
 RECURSIVE WalkHostFS(_, _, _, _), WalkMount(_, _, _, _)
 WalkMountsBelow(dest, src) ==                                  \* src: container path
-    IF sc.mnt # "none" /\ Len(MountRoot) > Len(src) /\ IsPrefix(src, MountRoot)
+    IF MountRoot # <<>> /\ Len(MountRoot) > Len(src) /\ IsPrefix(src, MountRoot)
     THEN WalkMount(dest \o SubSeq(MountRoot, Len(src) + 1, Len(MountRoot)), MountRoot, 0, FALSE)
     ELSE OK({})
 WalkMount(dest, src, maxSymlinks, below) ==
@@ -270,6 +277,9 @@ Walk == WalkMount(<<>>, <<OUT>>, LimitFollowSymlinks, TRUE)
 (***************************************************************************)
 NodeChoices(p) == {None, DirNode, Mk("file", ContentOf(p), FALSE, <<>>)}
                   \cup {Mk("link", 0, Targets[i].abs, Targets[i].comps) : i \in TargetIds}
+\* a mount point beneath the output path lies in a real directory (the container runtime creates it there)
+MountPointOK(s) == (s.mroot # <<>> /\ Head(s.mroot) = OUT /\ Len(s.mroot) > 2) =>
+                      LET d == SubSeq(s.mroot, 2, Len(s.mroot) - 1) IN d \in DOMAIN s.tree /\ s.tree[d].k = "dir"
 WellFormed(tree) == \A p \in DOMAIN tree : Len(p) > 1 /\ tree[p].k # "none" =>
                         Parent(p) \in DOMAIN tree /\ tree[Parent(p)].k = "dir"
 \* no link target passes THROUGH another link, and none names a path missing from a collection mount
@@ -286,7 +296,7 @@ Below(n, choices) == IF n.k = "dir" THEN choices ELSE {None}
 (* mounts and the top-level entries, Fill chooses what is below them.      *)
 Init == \E na \in NodeChoices(<<A>>), nb \in NodeChoices(<<B>>) : \E mc \in MountCfgIds : \E se \in SecretIds :
           sc = [tree |-> [p \in Cands |-> IF p = <<A>> THEN na ELSE IF p = <<B>> THEN nb ELSE None],
-                mnt |-> MountCfgs[mc].mode, mpath |-> MountCfgs[mc].mpath, mount |-> MountFamily[MountCfgs[mc].fam],
+                mroot |-> MountCfgs[mc].mroot, mpath |-> MountCfgs[mc].mpath, mount |-> MountFamily[MountCfgs[mc].fam],
                 sec |-> SecretRoots[se], done |-> FALSE]
 Fill == /\ ~sc.done
         /\ \E nax \in Below(sc.tree[<<A>>], NodeChoices(<<A, X>>)) : \E nay \in Below(sc.tree[<<A>>], LeafChoices(<<A, Y>>)) :
@@ -294,6 +304,7 @@ Fill == /\ ~sc.done
              LET tr == [sc.tree EXCEPT ![<<A, X>>] = nax, ![<<A, Y>>] = nay, ![<<B, X>>] = nbx]
                  s2 == [sc EXCEPT !.tree = tr, !.done = TRUE]
              IN /\ WellFormed(tr)
+                /\ MountPointOK(s2)
                 /\ TargetsPlain(s2)
                 /\ sc' = s2
 Next == Fill
@@ -348,7 +359,7 @@ CopyDriftOK(kind) == IF Expected.err THEN kind = "error" ELSE kind = "ok"
 Emit == sc.done => Serialize(<<[nodes |-> [i \in DOMAIN CandSeq |->
                                    [path |-> CandSeq[i], k |-> sc.tree[CandSeq[i]].k, c |-> sc.tree[CandSeq[i]].c,
                                     abs |-> sc.tree[CandSeq[i]].abs, tg |-> sc.tree[CandSeq[i]].tg]],
-                     mnt |-> sc.mnt, mpath |-> sc.mpath, sec |-> sc.sec, mount |-> sc.mount, experr |-> Expected.err]>>,
+                     mroot |-> sc.mroot, mpath |-> sc.mpath, sec |-> sc.sec, mount |-> sc.mount, experr |-> Expected.err]>>,
                   IOEnv.VERIF_OUT,
                   [format |-> "NDJSON", charset |-> "UTF-8", openOptions |-> <<"WRITE", "CREATE", "APPEND">>])
 =============================================================================
